@@ -432,6 +432,116 @@ func c06ManyPeers(c *Ctx, n int) {
 	}
 }
 
+// c06ConnChurn: a listens entry with a TCP listener only (or UDP + TCP) and TCP backends. Client
+// connections come and go (closed by the peer, after garbage, reset) and backend connections are
+// opened and re-opened in between; every request handed to a backend must name the LISTENER in its
+// new Via and Record-Route exactly as the first request did (differential: the first request, sent
+// before anything happened, is the reference; the product above judges it against the statement).
+// variant bits: 1 must-record-route, 2 the entry also has a UDP listener, 4 the visitor sends garbage,
+// 8 the caller's own connection is replaced too, 16 the backends' connections are reset by their peers
+func c06ConnChurn(c *Ctx, variant int) {
+	must, withUDP, garbage, callerToo, beReset := variant&1 != 0, variant&2 != 0, variant&4 != 0, variant&8 != 0, variant&16 != 0
+	l := RListen{Addr: "127.0.0.1", TCP: 5062, MustRR: must, Backends: []string{"tcp://127.0.1.1:7000", "tcp://127.0.1.2:7000", "tcp://127.0.1.3:7000"}}
+	if withUDP {
+		l.UDP = 5060
+	}
+	w := StartRelayWorld(SimOpts{}, RCfg{Name: "svc.example.com", Listens: []RListen{l}})
+	defer w.Close()
+	name := fmt.Sprintf("connection-churn(must-record-route=%v, udp listener too=%v, visitor sends garbage=%v, caller reconnects=%v, backend connections reset=%v)", must, withUDP, garbage, callerToo, beReset)
+	fail := func(cl, d string) {
+		c.Violate(cl+"|connection-churn", cl, name+": "+d, map[string]int{"conn_churn": variant + 1})
+	}
+	c.Res.Evaluations++
+	c.Res.Executions++
+	caller := w.Client("ua", "127.0.0.9", "127.0.0.1:5062")
+	seq := 0
+	type ins struct{ via, rr string }
+	send := func() (ins, bool) {
+		seq++
+		m := MsgSpec{Method: "OPTIONS", RURI: "sip:bob@svc.example.com", Vias: []string{fmt.Sprintf("SIP/2.0/TCP 127.0.0.9:5060;branch=z9hG4bKcc%d", seq)}, From: "<sip:alice@ua.example.net>;tag=f1", To: "<sip:bob@svc.example.com>",
+			CallID: fmt.Sprintf("cc-%d", seq), CSeq: "1 OPTIONS"}.Build()
+		w.Observe()
+		w.SendTCP(caller, m.Render())
+		obs := w.Observe()
+		if vd := w.S.Verdict(); vd != "" {
+			fail("health", vd)
+			return ins{}, false
+		}
+		if len(obs.Pkts) != 1 {
+			fail("request-not-relayed-once", fmt.Sprintf("request %d: %s", seq, obs.Summary()))
+			return ins{}, false
+		}
+		out, err := ReadWire(obs.Pkts[0].Data)
+		if err != nil {
+			fail("unreadable-emission", err.Error())
+			return ins{}, false
+		}
+		vs, _ := out.ViaStack()
+		rr, _ := out.NameAddrList("record-route")
+		if len(vs) != 2 {
+			fail("via-not-exactly-one-inserted", fmt.Sprintf("request %d handed to %s carries Via %q", seq, obs.Pkts[0].To, viaStrs(vs)))
+			return ins{}, false
+		}
+		return ins{via: vs[0].Transport + " " + vs[0].Host + ":" + vs[0].Port, rr: naList(rr)}, true
+	}
+	ref, ok := send()
+	if !ok {
+		return
+	}
+	c.Res.Nontrivial++
+	for round := 0; round < 4; round++ {
+		// a visitor's connection comes and goes
+		if v, err := w.S.TCPDial("127.0.0.7:0", "127.0.0.1:5062"); err == nil {
+			w.S.Run()
+			if garbage {
+				w.SendTCP(v, []byte("GARBAGE that is not SIP\r\n\r\n"))
+			} else {
+				w.SendTCP(v, []byte("\r\n\r\n"))
+			}
+			if !v.IsClosed() {
+				if round%2 == 0 {
+					v.Close()
+				} else {
+					v.Reset()
+				}
+			}
+			w.S.Run()
+		}
+		if callerToo && round == 1 {
+			caller.Close()
+			w.S.Run()
+			delete(w.cli, "ua")
+			caller = w.Client("ua", "127.0.0.9", "127.0.0.1:5062")
+		}
+		if beReset && round == 2 {
+			w.Observe()
+			for _, a := range []string{"127.0.1.1:7000", "127.0.1.2:7000", "127.0.1.3:7000"} {
+				for _, bc := range w.acc[a] {
+					if !bc.IsClosed() {
+						bc.Reset()
+					}
+				}
+			}
+			w.S.Run()
+		}
+		// two requests: the rotation moves on to a backend whose connection is opened (or re-opened) now
+		for k := 0; k < 2; k++ {
+			got, ok := send()
+			if !ok {
+				return
+			}
+			if got.via != ref.via {
+				fail("via-names-wrong-listener", fmt.Sprintf("request %d (round %d): the new top Via names %q; the first request, before any connection came or went, was stamped %q", seq, round, got.via, ref.via))
+				return
+			}
+			if got.rr != ref.rr {
+				fail("record-route-not-ahead-or-altered", fmt.Sprintf("request %d (round %d): Record-Route %s; the first request was given %s", seq, round, got.rr, ref.rr))
+				return
+			}
+		}
+	}
+}
+
 // c06PinnedDead: an in-dialog request whose pinned TCP backend has gone away (connection reset,
 // further connections refused). Whatever the proxy does with it - drop it or hand it to another
 // backend - a request that reaches a backend carries exactly one new Via and one new Record-Route.
@@ -570,13 +680,20 @@ func init() {
 					c06PinnedDead(c, variant)
 				}
 			}
+			for variant := 0; variant < 32; variant++ {
+				if c.Worker == (variant+4)%c.NWorkers {
+					c06ConnChurn(c, variant)
+				}
+			}
 		},
 		Replay: func(c *Ctx, raw json.RawMessage) string {
 			var fr map[string]int
-			if json.Unmarshal(raw, &fr) == nil && (fr["many_peers"] > 0 || fr["pinned_dead"] > 0) {
+			if json.Unmarshal(raw, &fr) == nil && (fr["many_peers"] > 0 || fr["pinned_dead"] > 0 || fr["conn_churn"] > 0) {
 				cc := &Ctx{Res: newResult(), vmap: map[string]*Violation{}, Deadline: c.Deadline, NWorkers: 1}
 				if fr["many_peers"] > 0 {
 					c06ManyPeers(cc, fr["many_peers"])
+				} else if fr["conn_churn"] > 0 {
+					c06ConnChurn(cc, fr["conn_churn"]-1)
 				} else {
 					c06PinnedDead(cc, fr["pinned_dead"]-1)
 				}
